@@ -112,14 +112,14 @@ theorem cast_u128_nonneg {x : Int} (h0 : 0 ≤ x) (h1 : x ≤ I128_MAX) : IntTy.
   exact Int.emod_eq_of_lt h0 (by omega)
 
 /-- the rounded quotient of in-range operands is in range: `quot + 1` cannot overflow -/
-theorem specRound_fits (m : Mode) (n d : Int) (hn : I128_MIN < n ∧ n ≤ I128_MAX) (hd : 0 < d) :
+theorem specRound_fits (m : Mode) (n d : Int) (hn : I128_MIN ≤ n ∧ n ≤ I128_MAX) (hd : 0 < d) :
     fitsI128 (Spec.specRound m n d) = true := by
   have h1 := Int.emod_nonneg n (Int.ne_of_gt hd)
   have h2 := Int.emod_lt_of_pos n hd
   have h3 := Int.mul_ediv_add_emod n d
   unfold I128_MIN I128_MAX at hn
   rw [fitsI128_iff]; unfold I128_MIN I128_MAX
-  have hlo : -170141183460469231731687303715884105727 ≤ n / d := by
+  have hlo : -170141183460469231731687303715884105728 ≤ n / d := by
     by_cases hxn : 0 ≤ n
     · have := Int.ediv_nonneg hxn (Int.le_of_lt hd); omega
     · have := ediv_ge_of_neg (x := n) (by omega) hd; omega
@@ -142,51 +142,63 @@ theorem specRound_fits (m : Mode) (n d : Int) (hn : I128_MIN < n ∧ n ≤ I128_
       · have := Int.ediv_neg_of_neg_of_pos (show n < 0 by omega) hd; omega
     cases m <;> simp only [] <;> (repeat' split) <;> omega
 
+/-- the part of `i128_div_rounded` after the sign normalisation (divisor positive) -/
+theorem divRoundedTail (prof : Profile) (tm : Mode) (mode : Option Mode) (n d : Int)
+    (hn : I128_MIN ≤ n ∧ n ≤ I128_MAX) (hd : 0 < d) (hdu : d ≤ I128_MAX) :
+    (do let (quot, rem) ← i128DivModFloor prof n d
+        match roundQuot tm quot (IntTy.u128.cast rem).toNat (IntTy.u128.cast d).toNat mode with
+        | some q => pure q
+        | none => Outcome.panic PanicKind.unwrap) = Outcome.ok (Spec.specRound (mode.getD tm) n d) := by
+  have hnf : fitsI128 n = true := by rw [fitsI128_iff]; omega
+  have h1 := Int.emod_nonneg n (Int.ne_of_gt hd)
+  have h2 := Int.emod_lt_of_pos n hd
+  rw [i128DivModFloor_pos prof n d hnf hd hdu]
+  simp only [Outcome.bind_ok]
+  rw [cast_u128_nonneg h1 (by omega), cast_u128_nonneg (Int.le_of_lt hd) hdu]
+  have hsf := specRound_fits (mode.getD tm) n d hn hd
+  have hqf : fitsI128 (n / d) = true := by
+    have h3 := Int.mul_ediv_add_emod n d
+    rw [fitsI128_iff]; unfold I128_MIN I128_MAX at *
+    constructor
+    · by_cases hxn : 0 ≤ n
+      · have := Int.ediv_nonneg hxn (Int.le_of_lt hd); omega
+      · have := ediv_ge_of_neg (x := n) (by omega) hd; omega
+    · by_cases hxn : 0 ≤ n
+      · have := Int.ediv_le_self d hxn; omega
+      · have := Int.ediv_neg_of_neg_of_pos (show n < 0 by omega) hd; omega
+  cases mode with
+  | none =>
+    have hsf' : fitsI128 (Spec.specRound tm n d) = true := hsf
+    rw [roundQuot_none, roundQuot_spec tm tm n d hd hdu hqf, checkedI128_some hsf']
+    rfl
+  | some m =>
+    have hsf' : fitsI128 (Spec.specRound m n d) = true := hsf
+    rw [roundQuot_spec tm m n d hd hdu hqf, checkedI128_some hsf']
+    rfl
+
+/-- `i128_div_rounded(n, d, mode)` for a positive divisor: any i128 dividend (including `i128::MIN`) -/
+theorem i128DivRounded_pos (prof : Profile) (tm : Mode) (mode : Option Mode) (n d : Int)
+    (hn : fitsI128 n = true) (hd : 0 < d) (hdu : d ≤ I128_MAX) :
+    i128DivRounded prof tm n d mode = .ok (Spec.specRound (mode.getD tm) n d) := by
+  rw [fitsI128_iff] at hn
+  unfold i128DivRounded
+  have hneg : ¬ d < 0 := by omega
+  simp only [hneg, if_false, Outcome.pure_eq, Outcome.bind_ok]
+  exact divRoundedTail prof tm mode n d hn hd hdu
+
 /-- `i128_div_rounded(n, d, mode)` is the spec rounding of `n/d` for every non-zero divisor, every mode,
     every profile; it never panics on in-range operands -/
 theorem i128DivRounded_spec (prof : Profile) (tm : Mode) (mode : Option Mode) (n d : Int)
     (hn : I128_MIN < n ∧ n ≤ I128_MAX) (hd : I128_MIN < d ∧ d ≤ I128_MAX) (hd0 : d ≠ 0) :
     i128DivRounded prof tm n d mode = .ok (Spec.specRoundQ (mode.getD tm) n d) := by
-  have key : ∀ (n d : Int), (I128_MIN < n ∧ n ≤ I128_MAX) → 0 < d → d ≤ I128_MAX →
-      (do let (quot, rem) ← i128DivModFloor prof n d
-          match roundQuot tm quot (IntTy.u128.cast rem).toNat (IntTy.u128.cast d).toNat mode with
-          | some q => pure q
-          | none => Outcome.panic PanicKind.unwrap) = Outcome.ok (Spec.specRound (mode.getD tm) n d) := by
-    intro n d hn hd hdu
-    have hnf : fitsI128 n = true := by rw [fitsI128_iff]; omega
-    have h1 := Int.emod_nonneg n (Int.ne_of_gt hd)
-    have h2 := Int.emod_lt_of_pos n hd
-    rw [i128DivModFloor_pos prof n d hnf hd hdu]
-    simp only [Outcome.bind_ok]
-    rw [cast_u128_nonneg h1 (by omega), cast_u128_nonneg (Int.le_of_lt hd) hdu]
-    have hsf := specRound_fits (mode.getD tm) n d hn hd
-    have hqf : fitsI128 (n / d) = true := by
-      have h3 := Int.mul_ediv_add_emod n d
-      rw [fitsI128_iff]; unfold I128_MIN I128_MAX at *
-      constructor
-      · by_cases hxn : 0 ≤ n
-        · have := Int.ediv_nonneg hxn (Int.le_of_lt hd); omega
-        · have := ediv_ge_of_neg (x := n) (by omega) hd; omega
-      · by_cases hxn : 0 ≤ n
-        · have := Int.ediv_le_self d hxn; omega
-        · have := Int.ediv_neg_of_neg_of_pos (show n < 0 by omega) hd; omega
-    cases mode with
-    | none =>
-      have hsf' : fitsI128 (Spec.specRound tm n d) = true := hsf
-      rw [roundQuot_none, roundQuot_spec tm tm n d hd hdu hqf, checkedI128_some hsf']
-      rfl
-    | some m =>
-      have hsf' : fitsI128 (Spec.specRound m n d) = true := hsf
-      rw [roundQuot_spec tm m n d hd hdu hqf, checkedI128_some hsf']
-      rfl
   unfold i128DivRounded Spec.specRoundQ
   unfold I128_MIN I128_MAX at hn hd
   by_cases hneg : d < 0
   · have f1 : fitsI128 (-n) = true := by rw [fitsI128_iff]; unfold I128_MIN I128_MAX; omega
     have f2 : fitsI128 (-d) = true := by rw [fitsI128_iff]; unfold I128_MIN I128_MAX; omega
     simp only [hneg, if_true, negI128, plainI128_ok prof f1, plainI128_ok prof f2, Outcome.bind_ok, Outcome.pure_eq]
-    exact key (-n) (-d) (by unfold I128_MIN I128_MAX; omega) (by omega) (by unfold I128_MAX; omega)
+    exact divRoundedTail prof tm mode (-n) (-d) (by unfold I128_MIN I128_MAX; omega) (by omega) (by unfold I128_MAX; omega)
   · simp only [hneg, if_false, Outcome.pure_eq, Outcome.bind_ok]
-    exact key n d (by unfold I128_MIN I128_MAX; omega) (by omega) (by unfold I128_MAX; omega)
+    exact divRoundedTail prof tm mode n d (by unfold I128_MIN I128_MAX; omega) (by omega) (by unfold I128_MAX; omega)
 
 end Fpdec
